@@ -136,6 +136,11 @@ theorem NI.cancelKindFor_fst {w : World} (h : NI w) (p : Pid) (act : Nat) (sig :
   unfold Sim.cancelKindFor
   exact NI.foldl (fun w q h => by ni) _ h
 macro_rules | `(tactic| ni_step) => `(tactic| with_reducible apply NI.cancelKindFor_fst)
+theorem NI.cancelUserAll_fst {w : World} (h : NI w) :
+    NI (cancelUserAll w).1 := by
+  unfold Sim.cancelUserAll
+  exact NI.foldl (fun w q h => by ni) _ h
+macro_rules | `(tactic| ni_step) => `(tactic| with_reducible apply NI.cancelUserAll_fst)
 
 theorem NI.recordRes {w : World} (h : NI w) (r : Nat) : NI (recordRes w r) := by
   unfold Sim.recordRes; ni
